@@ -4,3 +4,4 @@ from checks import e3check
 QUICK = os.environ.get('VERIF_SCEN', 'mu_w_w_R3').split(',')
 THOROUGH = []
 scenarios, jobs, confirm, info = e3check.make('CX', QUICK, THOROUGH, 'ad hoc', [], [])
+WORKERS = 5     # each query needs 2-10 GB (cbmc + kissat): bounded parallelism keeps the machine out of swap / the OOM killer
